@@ -48,6 +48,9 @@ pub struct Cfg {
     pub y: u8,
     /// number of future slots
     pub k: u8,
+    /// 1 = waker variant B is one waker shared by all slots (several futures polled by one task:
+    /// their wakers `will_wake` each other); 0 = every slot has its own two wakers
+    pub sw: u8,
 }
 
 pub const FL_LOCAL: u8 = 0;
@@ -266,7 +269,7 @@ impl Default for H128 {
 pub fn hash_history(world: u8, cfg: &Cfg, ops: &[Op]) -> u128 {
     let mut h = H128::new();
     h.u8(world);
-    h.bytes(&[cfg.flavour, cfg.mode, cfg.x, cfg.y, cfg.k]);
+    h.bytes(&[cfg.flavour, cfg.mode, cfg.x, cfg.y, cfg.k, cfg.sw]);
     for o in ops {
         h.bytes(&[o.code, o.a, o.b]);
     }
@@ -332,9 +335,22 @@ impl<F> Slot<F> {
     pub fn pollable(&self) -> bool {
         self.fut.is_some() && !self.done && !self.cancelled
     }
-    /// the waker passed to the most recent poll has been invoked since that poll began
+    /// identity of waker variant `w` of this slot
+    pub fn waker_id_for(&self, w: u8) -> usize {
+        if w == 1 && tls::shared_b() {
+            tls::SHARED_WAKER
+        } else {
+            self.wid as usize * 2 + w as usize
+        }
+    }
+    /// identity of the waker passed to the most recent poll
+    pub fn waker_id(&self) -> usize {
+        self.waker_id_for(self.last_w)
+    }
+    /// the waker passed to the most recent poll has been invoked since that poll began (with a
+    /// shared waker: the task polling this future has been woken)
     pub fn woken(&self) -> bool {
-        self.polled && tls::last_wake(self.wid as usize * 2 + self.last_w as usize) > self.poll_seq
+        self.polled && tls::last_wake(self.waker_id()) > self.poll_seq
     }
     pub fn range(&self) -> Option<(usize, usize)> {
         self.fut.as_ref().map(|b| {
@@ -382,7 +398,7 @@ impl<F: Future> Slot<F> {
         self.last_w = w;
         self.polled = true;
         self.polls += 1;
-        let waker = make_waker(self.wid as usize * 2 + w as usize);
+        let waker = make_waker(self.waker_id_for(w));
         let mut cx = Context::from_waker(&waker);
         let fut = self.fut.as_mut().expect("poll on empty slot");
         let r = run.call("poll", || fut.as_mut().poll(&mut cx));
@@ -642,6 +658,11 @@ pub enum Tier {
 /// A world: interpreter + monitors for one primitive.
 pub trait World: Sync {
     fn id(&self) -> u8;
+    /// the world's futures are polled with harness wakers, so every configuration also exists
+    /// with a waker shared by all slots (`Cfg::sw`)
+    fn shared_wakers(&self) -> bool {
+        false
+    }
     fn name(&self) -> &'static str;
     /// properties whose monitors are evaluated by this world
     fn props(&self) -> &'static [&'static str];
@@ -653,6 +674,14 @@ pub trait World: Sync {
     /// is a history with these class bits non-trivial for `prop`?
     fn nontrivial(&self, prop: &str, classes: u64) -> bool;
     fn cfg_desc(&self, cfg: &Cfg) -> String;
+    /// `cfg_desc` plus the waker universe
+    fn describe(&self, cfg: &Cfg) -> String {
+        let mut s = self.cfg_desc(cfg);
+        if cfg.sw == 1 {
+            s.push_str(" [waker B is one waker shared by all slots]");
+        }
+        s
+    }
     /// names of class bits (for the evidence histogram)
     fn class_names(&self) -> &'static [&'static str];
 }
@@ -838,4 +867,29 @@ pub fn recycle<F>(op: &Op, slots: &[Slot<F>], create_codes: &[u8], poll_code: u8
         return Op { code: create_codes[0], a: op.a, b: op.b };
     }
     *op
+}
+
+
+/// `World::configs` plus, for worlds with wakers, shared-waker variants of every third one.
+pub fn all_configs(w: &dyn World, tier: Tier) -> Vec<Cfg> {
+    let base = w.configs(tier);
+    let mut v = base.clone();
+    if w.shared_wakers() {
+        for c in base.iter().step_by(3) {
+            v.push(Cfg { sw: 1, ..*c });
+        }
+    }
+    v
+}
+
+/// `World::enum_configs` plus the shared-waker variant of the first one.
+pub fn all_enum_configs(w: &dyn World, tier: Tier) -> Vec<(Cfg, usize)> {
+    let base = w.enum_configs(tier);
+    let mut v = base.clone();
+    if w.shared_wakers() {
+        if let Some((c, d)) = base.first() {
+            v.push((Cfg { sw: 1, ..*c }, *d));
+        }
+    }
+    v
 }
